@@ -94,9 +94,28 @@ func Run(j *job.Job, s *job.Sink) {
 		nm := 1 + r.Intn(4)
 		for i := 0; i < nm; i++ {
 			m := &mod{name: fmt.Sprintf("m%d", i), prefix: fmt.Sprintf("p%d", i), imports: map[*mod]string{}}
+			if r.Intn(3) == 0 {
+				m.prefix = "same" // several modules may declare the same prefix for themselves
+			}
+			// import prefixes are drawn from a small pool (unique within one file only), so
+			// that a module and its submodules, or two modules, bind one prefix to
+			// different modules
+			impPrefix := func(f *mod, unique string) string {
+				if r.Intn(2) == 0 {
+					q := fmt.Sprintf("q%d", r.Intn(3))
+					taken := q == f.prefix
+					for _, p := range f.imports {
+						taken = taken || p == q
+					}
+					if !taken {
+						return q
+					}
+				}
+				return unique
+			}
 			for _, e := range mods {
 				if r.Intn(2) == 0 {
-					m.imports[e] = fmt.Sprintf("i%d%s", i, e.name)
+					m.imports[e] = impPrefix(m, fmt.Sprintf("i%d%s", i, e.name))
 				}
 			}
 			ns := r.Intn(3)
@@ -107,7 +126,7 @@ func Run(j *job.Job, s *job.Sink) {
 				}
 				for _, e := range mods {
 					if r.Intn(2) == 0 {
-						sm.imports[e] = fmt.Sprintf("si%d%d%s", i, k, e.name)
+						sm.imports[e] = impPrefix(sm, fmt.Sprintf("si%d%d%s", i, k, e.name))
 					}
 				}
 				m.subs = append(m.subs, sm)
